@@ -110,6 +110,7 @@ PROPS["C12"] = dict(
     rule="generated handle configurations x write scripts",
     steps=[
         dict(test="^Test(Regress_C12|C12_Write|C12_MissingName)$", quick=dict(checks=250, timeout=900), thorough=dict(checks=2500, shards=12, timeout=3000)),
+        dict(test="^TestC12_OverflowReuse$", quick=dict(checks=25, timeout=900), thorough=dict(checks=150, shards=6, timeout=3000)),
     ],
 )
 
